@@ -72,7 +72,7 @@ def run_worker(arg):
     jobf, resf = os.path.join(d, "jobs.json"), os.path.join(d, "res.json")
     json.dump(jobs, open(jobf, "w"))
     env = dict(os.environ, OMP_NUM_THREADS=str(threads), OMP_WAIT_POLICY="PASSIVE", OPENBLAS_NUM_THREADS="1",
-               NUMEXPR_NUM_THREADS="1", PYTHONPATH="")
+               NUMEXPR_NUM_THREADS="1", PYTHONPATH="", VERIF_POISON="1")
     p = subprocess.run([core.PY, WORKER, build, jobf, resf], stdout=subprocess.PIPE, stderr=subprocess.PIPE,
                        text=True, env=env, timeout=6000)
     if p.returncode != 0 or not os.path.exists(resf):
